@@ -53,6 +53,8 @@ def engine_quirk(ex, case):
             "doesn't match the DataFrame height" in msg or "must have same length as DataFrame" in msg):
         if _scalar_shapes(case):
             return "polars_scalar_broadcast"
+    if exc_name(ex) == "InvalidOperationError" and "joining with repeated key names" in msg:
+        return "polars_repeated_join_key"  # Polars limitation on join keys (join docstring note)
     return None
 
 
@@ -96,6 +98,8 @@ def classify_case(case, out: Outcome):
             out.count("gen_skipped_steps", g["skipped"])
         if g.get("gen_rejects"):
             out.count("gen_rejects", g["gen_rejects"])
+        for k, v in (g.get("excluded") or {}).items():
+            out.count("excluded_by_finding:" + k, v)
 
 
 def examine_pipeline(case, out: Outcome, *, backends=("polars", "sqlite"), ref_compare=True, differential=False,
@@ -177,23 +181,39 @@ def examine_pipeline(case, out: Outcome, *, backends=("polars", "sqlite"), ref_c
                 how = oracle.compare_ref(run.ref.vars[rv], df, view=view)
                 out.count(f"compared:{kind}:{how}")
             except oracle.Mismatch as mm:
+                if kind == "polars" and _noopt_agrees(b.vars[rv], lambda d: oracle.compare_ref(run.ref.vars[rv], d, view=view)):
+                    out.count("engine_quirk:polars_optimizer")
+                    run.frames[(kind, rv)] = build.export_polars_noopt(b.vars[rv])
+                    continue
                 where = first_divergence(run, kind, rv) if localize else "?"
                 out.fail("mismatch", f"{kind}:{mm.kind}:{where}", f"{kind} vs reference at {rv}: {mm}", var=rv)
-    if differential and ("polars", rvars[0]) in run.frames and ("sqlite", rvars[0]) in run.frames:
+    if differential:
         for rv in rvars:
             a, b = run.frames.get(("polars", rv)), run.frames.get(("sqlite", rv))
             if a is None or b is None:
                 continue
-            t = run.ref.vars[rv]
             try:
-                # order: compare the SQL frame to the reference order descriptor via ties; the
-                # differential itself is a multiset comparison plus names
-                oracle.compare_frames(a, b, order="multiset")
-                out.count("differential:compared")
+                how = differential_compare(run.ref.vars[rv], a, b)
+                out.count("differential:" + how)
             except oracle.Mismatch as mm:
-                out.fail("mismatch", f"differential:{mm.kind}", f"Polars vs SQLite at {rv}: {mm}", var=rv)
+                pl_tbl = run.built["polars"].vars[rv]
+                if _noopt_agrees(pl_tbl, lambda d: differential_compare(run.ref.vars[rv], d, b)):
+                    out.count("engine_quirk:polars_optimizer")
+                    continue
+                where = first_diff_divergence(run, rv) if localize else "?"
+                out.fail("mismatch", f"differential:{mm.kind}:{where}", f"Polars vs SQLite at {rv}: {mm}", var=rv)
     _close(run)
     return run
+
+
+def _noopt_agrees(tbl, compare):
+    """True if the same lazy plan, collected without the Polars optimizer, passes `compare`."""
+    try:
+        df = build.export_polars_noopt(tbl)
+        compare(df)
+        return True
+    except Exception:
+        return False
 
 
 def _close(run):
@@ -227,3 +247,56 @@ def first_divergence(run: PipelineRun, kind, rv) -> str:
 
 def n_data_verbs(case):
     return sum(1 for s in case["steps"] if s["verb"] in DATA_VERBS)
+
+
+def differential_compare(t, df_pl, df_sql):
+    """Polars frame vs SQLite frame.  The reference table `t` only supplies the order
+    descriptor (which leading arrange keys bind the SQL order) and the UNDEF mask."""
+    from .refsem import UNDEF
+
+    na, ra = oracle.frame_rows(df_pl)
+    nb, rb = oracle.frame_rows(df_sql)
+    if na != nb:
+        raise oracle.Mismatch("names", f"polars {na} vs sqlite {nb}")
+    if len(ra) != len(rb):
+        raise oracle.Mismatch("height", f"polars {len(ra)} rows vs sqlite {len(rb)} rows")
+    # columns with an out-of-domain cell are not compared
+    bad = [k for k, (_, c) in enumerate(t.visible) if any(v is UNDEF for v in t.data[c])]
+    if bad and len(t.visible) == len(na):
+        keep = [k for k in range(len(na)) if k not in bad]
+        ra = [tuple(r[k] for k in keep) for r in ra]
+        rb = [tuple(r[k] for k in keep) for r in rb]
+    tol = oracle.TOL_SQL
+    n = t.n_sql
+    if n == 0 or t.n != len(ra):
+        if not oracle.multiset_eq(ra, rb, tol):
+            raise oracle.Mismatch("rows", f"multisets differ: polars {ra[:5]} sqlite {rb[:5]}")
+        return "multiset"
+    keys = [tuple(g[i] for g in t.okeys[:n]) for i in range(t.n)]
+    i = 0
+    while i < t.n:
+        j = i
+        while j < t.n and keys[j] == keys[i]:
+            j += 1
+        if not oracle.multiset_eq(ra[i:j], rb[i:j], tol):
+            raise oracle.Mismatch("order", f"rows {i}..{j - 1}: polars {ra[i:j][:4]} sqlite {rb[i:j][:4]}")
+        i = j
+    return "ties"
+
+
+def first_diff_divergence(run, rv):
+    pl, sq = run.built.get("polars"), run.built.get("sqlite")
+    prev = "source"
+    for s in lineage(run.case2, rv):
+        v = s["out"]
+        if v not in pl.vars or v not in sq.vars or v not in run.ref.vars:
+            continue
+        try:
+            differential_compare(run.ref.vars[v], build.export_polars(pl.vars[v]), build.export_polars(sq.vars[v]))
+        except oracle.Mismatch:
+            return f"{s['verb']}<{prev}"
+        except Exception as ex:
+            return f"{s['verb']}!{exc_name(ex)}"
+        if not s.get("_auto"):
+            prev = s["verb"]
+    return "?"
